@@ -133,6 +133,11 @@ func c02Cfgs() []*bsCfg {
 		// entries reach the protected region before costs change
 		{Name: "m3-reads", MaxSize: 3, ChanSize: 2, BufSize: 2, NClients: 1, OpsPer: 7, Depth: 16,
 			Ops: []bsOp{S(1, 1), S(2, 1), S(3, 1), {"get", 1, 0, 0}, S(2, 3), S(2, 2)}},
+		// loading store: a load that finds the key resident (expired but not reclaimed, or stored meanwhile)
+		// must reach the policy as a cost update, a load of an absent key as an insert
+		{Name: "m3-loading", MaxSize: 3, ChanSize: 2, BufSize: 2, Loading: true, LoadCost: 2, LoadTTL: sec, NClients: 2, OpsPer: 2, Depth: 9,
+			Ticks: 1, TickNs: 1100 * 1e6, Advs: []int64{1100 * 1e6}, MaxAdv: 1,
+			Ops: []bsOp{S(1, 1), {"lget", 1, 0, 0}, {"lget", 2, 0, 0}, D(1)}},
 		{Name: "m2-q1", MaxSize: 2, ChanSize: 1, BufSize: 1, NClients: 3, OpsPer: 1, Depth: 10,
 			Ops: []bsOp{S(1, 1), S(1, 2), S(2, 2), S(3, 1), D(1), D(2)}},
 	}
